@@ -9,6 +9,14 @@ Driver for C11.  Case:  `c11 ; op ; op ; …` with
       | `L`                                 the sink is read until nothing is pending (all `sendLookup`s)
       | `I SRC z` | `I SRC i ID ntags TAG*`  lookup completion: nil | instance
       | `E`                                 stats emission
+      | `B` | `U`                           the downstream handler blocks in / resumes returning from its
+                                            Dispatch… calls.  While blocked: what lookup completions release is
+                                            handed over but stuck, and is observed — in the order it was
+                                            produced — in the `U` segment.  An arrival with a cache hit (or an
+                                            empty source) would block its CALLER inside the stage before the
+                                            missed part reaches the owner loop; such an op (they only arise
+                                            when a case is shrunk) first unblocks, and its segment shows both.
+                                            A case that ends blocked gets a final `U` (one more segment).
   PEEK := `n (SRC m | SRC z | SRC i ID ntags TAG*)*n`   (sources not listed: miss)
 
 Output: one segment per op, ` | `-separated:
@@ -16,6 +24,7 @@ Output: one segment per op, ` | `-separated:
                                (metric deliveries of one op first, then its events in order;
                                 maps rendered canonically with timer values sorted)
   `L SRC*` (sorted)            `E hit miss hostsM hostsE itemsE` (the three gauges as float64 bits, as emitted)
+  `B`                          `U dlv*`   (in every segment: maps first, sorted by their text, then events in order)
 
 Inside the model strings are real strings (each byte one character), because `FormatTagsKey` sorts and
 joins them; they are hex tokens only on the wire.
@@ -112,11 +121,28 @@ def parseOp (ts : List String) : Option Op :=
     let r ← runP pResult rest
     pure (.act (.info (decStr s) r))
   | ["E"] => some (.act .emit)
+  | ["B"] => some (.act .block)
+  | ["U"] => some (.act .unblock)
   | _ => none
+
+/-- does the op call downstream synchronously from the caller's goroutine (some entry / the event is a hit)? -/
+def callsDownstream : Op → Bool
+  | .act (.arriveMetrics b pk) => (entries b).any (fun e => isHit pk e.src)
+  | .act (.arriveEvent e pk) => isHit pk e.src
+  | _ => false
+
+/-- is downstream blocked after these ops (an op that calls downstream unblocks first)? -/
+def endsBlocked (ops : List Op) : Bool :=
+  ops.foldl (fun b o => match o with
+    | .act .block => true
+    | .act .unblock => false
+    | o => if callsDownstream o then false else b) false
 
 def parseCase (line : String) : Option (List Op) :=
   match splitBy ";" (tokens line) with
-  | ["c11"] :: ops => (ops.filter (· ≠ [])).mapM parseOp
+  | ["c11"] :: ops => do
+    let ops ← (ops.filter (· ≠ [])).mapM parseOp
+    pure (if endsBlocked ops then ops ++ [.act .unblock] else ops)
   | _ => none
 
 /-! ### model run -/
@@ -131,10 +157,15 @@ def opLetter : Op → String
   | .act .sendLookup => "L"
   | .act (.info _ _) => "I"
   | .act .emit => "E"
+  | .act .block => "B"
+  | .act .unblock => "U"
   | .drain => "L"
 
-def applyOp (st : St Float) : Op → St Float
-  | .act a => step d7Fixed st a
+def applyOp (st : St Float) (o : Op) : St Float :=
+  match o with
+  | .act a =>
+    let st := if st.blocked && callsDownstream o then step d7Fixed st .unblock else st
+    step d7Fixed st a
   | .drain => (List.range st.toLookup.length).foldl (fun s _ => step d7Fixed s .sendLookup) st
 
 def segment (o : Op) (st st' : St Float) : String :=
@@ -144,7 +175,11 @@ def segment (o : Op) (st st' : St Float) : String :=
     | some (h, m, a, b, c) => unwords ["E", toString h, toString m, gaugeTok a, gaugeTok b, gaugeTok c]
     | none => "E"
   | .drain | .act .sendLookup => unwords ("L" :: sortStrings ((st'.sent.drop st.sent.length).map encStr))
-  | _ => unwords (opLetter o :: (st'.delivered.drop st.delivered.length).map renderDelivery)
+  | _ =>
+    let ds := st'.delivered.drop st.delivered.length
+    let ms := sortStrings (ds.filterMap (fun d => match d with | .metrics _ => some (renderDelivery d) | _ => none))
+    let es := ds.filterMap (fun d => match d with | .event _ => some (renderDelivery d) | _ => none)
+    unwords (opLetter o :: (ms ++ es))
 
 def runModel (line : String) : String :=
   match parseCase line with
@@ -169,6 +204,10 @@ structure SS where
   needL : List String := []        -- requested, not yet read from the sink
   inflight : List String := []
   envOK : Bool := true
+  blocked : Bool := false
+  /-- released while downstream is blocked: due when it is unblocked (one entry list per released map) -/
+  dueMaps : List (List (Ent Float)) := []
+  dueEvents : List Event := []
 
 def splitDeliveries (ts : List String) : List (String × List String) :=
   let (cur, acc) := ts.foldl (fun (st : Option (String × List String) × List (String × List String)) t =>
@@ -233,43 +272,57 @@ def specOp (ss : SS) (o : Op) (seg : List String) : Except String SS := do
       let gotBodies := es.map (fun g => match runP pEvent g.2 with | some e => strip e | none => "?")
       if gotBodies = want.map strip then throw "tagging a delivered event does not carry the tags/source its lookup result prescribes"
       else throw "exactly-once delivered events are not the due events in order"
-  let checkMaps (cls : String) (leaves : List (Ent Float)) : Except String Unit := do
-    if leaves.isEmpty then
-      if ms.length > 0 then throw "exactly-once a metric map was delivered although nothing was due (duplicate or early)"
-    else
-      match ms with
-      | [] => throw s!"{cls} metrics due in this step were not delivered"
-      | [g] =>
-        match parseRenderedMap g.2 with
-        | none => throw "shape unparsable delivered map"
-        | some r => match checkDelivered r leaves with
-          | some why => throw why
-          | none => pure ()
-      | _ => throw "exactly-once more than one metric map delivered in one step"
+  let checkMaps (cls : String) (dues : List (List (Ent Float))) : Except String Unit := do
+    let dues := dues.filter (fun l => !l.isEmpty)
+    if ms.length > dues.length then throw "exactly-once a metric map was delivered although nothing was due (duplicate or early)"
+    if ms.length < dues.length then throw s!"{cls} metrics due in this step were not delivered"
+    let parsed ← ms.mapM (fun g => match parseRenderedMap g.2 with
+      | some r => pure r
+      | none => throw "shape unparsable delivered map")
+    -- every due map must be one of the delivered maps (each delivered map used once)
+    let _ ← dues.foldlM (fun (left : List (MM Float)) leaves =>
+      match left.findIdx? (fun r => (checkDelivered r leaves).isNone) with
+      | some i => pure (left.eraseIdx i)
+      | none => match left with
+        | r :: _ => throw ((checkDelivered r leaves).getD "exactly-once delivered map does not match")
+        | [] => throw s!"{cls} metrics due in this step were not delivered") parsed
   let request (ss : SS) (s : String) : SS :=
     -- data was parked for s: a lookup has to be outstanding; it is requested iff none is
     if (AList.lookup s ss.parkedM).isSome ∨ (AList.lookup s ss.parkedE).isSome ∨ s ∈ ss.needL ∨ s ∈ ss.inflight then ss
     else { ss with needL := ss.needL ++ [s] }
+  -- an op that calls downstream from the caller's goroutine first unblocks: everything held is due with it
+  let flush := ss.blocked && callsDownstream o
+  let heldMaps := if flush then ss.dueMaps else []
+  let heldEvents := if flush then ss.dueEvents else []
+  let ss := if flush then { ss with blocked := false, dueMaps := [], dueEvents := [] } else ss
   match o with
   | .act (.arriveMetrics b pk) =>
     let all := entries b
     let hits := all.filter (fun e => isHit pk e.src)
     let misses := all.filter (fun e => !isHit pk e.src)
     if rest ≠ [] then throw "shape stray tokens"
-    checkMaps "immediate" (hits.map (fun e => e.rekey (instOf pk e.src)))
-    checkEvents "immediate" []
+    checkMaps "immediate" (heldMaps ++ [hits.map (fun e => e.rekey (instOf pk e.src))])
+    checkEvents "immediate" heldEvents
     pure (misses.foldl (fun ss e =>
       let ss := request ss e.src
       { ss with parkedM := AList.upsert e.src (fun o => o.getD [] ++ [e]) ss.parkedM }) ss)
   | .act (.arriveEvent e pk) =>
-    checkMaps "immediate" []
+    checkMaps "immediate" heldMaps
     if isHit pk e.src then
-      checkEvents "immediate" [enrichEvent (instOf pk e.src) e]
+      checkEvents "immediate" (heldEvents ++ [enrichEvent (instOf pk e.src) e])
       pure ss
     else
       checkEvents "immediate" []
       let ss := request ss e.src
       pure { ss with parkedE := AList.upsert e.src (fun o => o.getD [] ++ [e]) ss.parkedE }
+  | .act .block =>
+    if dl ≠ [] then throw "exactly-once a delivery although nothing was due (duplicate or late)"
+    pure { ss with blocked := true }
+  | .act .unblock =>
+    if rest ≠ [] then throw "shape stray tokens"
+    checkMaps "release" ss.dueMaps
+    checkEvents "release" ss.dueEvents
+    pure { ss with blocked := false, dueMaps := [], dueEvents := [] }
   | .drain | .act .sendLookup =>
     if dl ≠ [] then throw "exactly-once a delivery although nothing was due (duplicate or late)"
     if ss.envOK then
@@ -281,10 +334,18 @@ def specOp (ss : SS) (o : Op) (seg : List String) : Except String SS := do
     pure { ss with inflight := ss.inflight ++ ss.needL, needL := [] }
   | .act (.info s r) =>
     let envOK := ss.envOK && decide (s ∈ ss.inflight)
-    checkMaps "release" (((AList.lookup s ss.parkedM).getD []).map (fun e => e.rekey r))
-    checkEvents "release" (((AList.lookup s ss.parkedE).getD []).map (enrichEvent r))
-    pure { ss with parkedM := AList.erase s ss.parkedM, parkedE := AList.erase s ss.parkedE,
-                   inflight := ss.inflight.erase s, envOK := envOK }
+    let dueM := ((AList.lookup s ss.parkedM).getD []).map (fun e => e.rekey r)
+    let dueE := ((AList.lookup s ss.parkedE).getD []).map (enrichEvent r)
+    let ss := { ss with parkedM := AList.erase s ss.parkedM, parkedE := AList.erase s ss.parkedE,
+                        inflight := ss.inflight.erase s, envOK := envOK }
+    if ss.blocked then
+      -- downstream does not take anything now: due when it is unblocked
+      if dl ≠ [] then throw "exactly-once a delivery although downstream is blocked"
+      pure { ss with dueMaps := ss.dueMaps ++ [dueM], dueEvents := ss.dueEvents ++ dueE }
+    else
+      checkMaps "release" [dueM]
+      checkEvents "release" dueE
+      pure ss
   | .act .emit =>
     if dl ≠ [] then throw "exactly-once a delivery although nothing was due (duplicate or late)"
     match rest with
